@@ -24,23 +24,23 @@ p("C07", KANI + ": address equality and kani::mem::same_allocation postcondition
 p("C08", KANI + " on is_unique/try_into_mut/try_reclaim + Verus lemma (count == 1 iff no other handle)",
   "is_unique equals the tabled function of representation and count for all states; try_into_mut Ok iff unique with same memory; sole empty owner reclaims for every n up to the allocation size.",
   "as C01")
-p("C09", "Verus on mechanically extracted, verbatim Buf implementors against a trait-level cursor contract (generic in the type parameters => every nesting depth) + Kani for pointer-level implementors and chunks_vectored",
-  "remaining/chunk/advance/try_copy_to_slice/... of &[u8], Take, Chain, &mut T, Box<T>, Cursor verified for all inputs and all chunkings against seq-based contracts; Bytes/BytesMut/VecDeque and chunks_vectored by Kani.",
+p("C09", "Verus on mechanically extracted, verbatim Buf implementors against a trait-level cursor contract (generic in the type parameters => every nesting depth) + Kani for pointer-level implementors, chunks_vectored and copy_to_bytes",
+  "remaining/chunk/advance/try_copy_to_slice/... of &[u8], Take, Chain, &mut T, Box<T>, Cursor, IntoIter verified for all inputs and all chunkings against seq-based contracts; Bytes/BytesMut as Buf, chunks_vectored (default, Chain, Take, forwarders) by Kani over the full domain of the stated shapes; VecDeque, copy_to_bytes of Take/Chain bounded.",
   "assumed std contracts (cmp::min, slice ops per vstd, Cursor accessors); VecDeque bounded in capacity; 'advance beyond remaining panics' checked by Kani per implementor")
 p("C10", "Kani full-domain loop-free harnesses of every macro-generated get_X/try_get_X against an abstract law-abiding Buf whose copy_to_slice is its (Verus-proved) contract; oracle from_{be,le,ne}_bytes with independent sign fill",
   "All getters, all values, nbytes 0..=8 and >8, all shortfalls, fast and slow path chosen by the solver; try_copy_to_slice loop proved in Verus for all chunkings; forwarders in Verus.",
   "little-endian target; abstract implementor stands for every law-abiding Buf")
-p("C11", "Kani full-domain harnesses of put_X against an abstract BufMut + real fixed targets; Verus for Limit/Chain bookkeeping",
-  "Typed puts proved loop-free for all values/nbytes; default loops and growing targets bounded and labelled.", "bounded parts named in evidence.bounds")
+p("C11", "Kani full-domain harnesses of put_X against an abstract BufMut + the real fixed targets; Verus for the default put_slice/put loops (bookkeeping, all chunkings), Limit, Chain, Writer and the forwarders",
+  "Typed puts (all values, nbytes 0..=8, does-not-fit panics, round trip with get_X) and the &mut [u8] / MaybeUninit / UninitSlice targets proved loop-free over the full domain; default put_slice/put loops proved in Verus to terminate and account exactly for every chunking; contents of the default loops, Vec<u8> and BytesMut targets are bounded stand-ins.", "contents through nested adapters only via the bookkeeping contract; bounded parts named in evidence.bounds")
 p("C12", "Verus on extracted Take/Chain/Limit/Reader/Writer with accounting postconditions (limit' == limit - n, inner advanced by n, a before b), generic in the inner type",
   "Holds for arbitrarily nested adapters by structural induction on the type: each adapter is verified against the trait contract of its parameter.", "assumed std contracts as C09")
 p("C13", "Kani panic-path harnesses: negated argument contract => exactly the documented panic fails, every memory-safety/overflow check passes, no write before the panic (proof_for_contract with empty modifies where usable)",
   "For each guarded method, out-of-contract arguments reach only the documented assertion; nothing is written before it.", "unwinding itself not modelled")
 p("C14", "Verus on every extracted PartialEq/PartialOrd/Ord impl: result == that function of the two byte views in this operand order (vstd PartialEqSpecImpl/PartialOrdSpecImpl/OrdSpecImpl)",
-  "54 impl functions verified for all inputs, unbounded; operand swaps and wrong-view bugs fail a named postcondition. The two `*self == other[..]` impls on String are outside Verus (no Index<RangeFull> spec for String) and are imported contracts.",
-  "slice ==/partial_cmp/cmp assumed to be eq/lex_cmp of the element sequences; str bytes per vstd spec_bytes; String bytes uninterpreted; Hash/Borrow not yet under contract")
-p("C15", "Kani on the real fmt code for all single bytes / byte pairs with an independent literal decoder + Verus composition lemma; serde visitors by Kani",
-  "per-byte/pair proof + lemma for arbitrary length", "loop carries no state between bytes (read off the source)")
+  "58 impl functions (54 comparisons + Hash and Borrow<[u8]> of both types) verified for all inputs, unbounded; operand swaps and wrong-view bugs fail a named postcondition. The two `*self == other[..]` impls on String are outside Verus (no Index<RangeFull> spec for String) and are covered, like changes that reach into the fields of the opaque types, by a bounded Kani twin on the real types (views <= 3 bytes).",
+  "slice ==/partial_cmp/cmp/hash assumed to be eq / lex_cmp / one uninterpreted function of the element sequences; str bytes per vstd spec_bytes; String bytes uninterpreted")
+p("C15", "Kani on the real fmt code for all single bytes / byte pairs with an independent literal decoder + Verus composition lemma; serde visitors and Serialize by Kani (--features serde)",
+  "Debug / {:x} / {:X}: proof for all 256 bytes and all 65536 pairs on the real code (output is exactly b\"esc(b0)esc(b1)\" and parses back), lemma decode(render(s)) == s for every length. serde: every visitor entry point returns equal contents and serialize hands exactly the contents to serialize_bytes, for inputs of 0..=4 bytes (bounded, reported separately).", "loop carries no state between bytes (read off the source; the pair obligation checks adjacent pairs); serde part bounded")
 p("C16", "same contracts discharged per configuration (even/odd address via ledger harnesses; overflow/shift/debug_assert obligations make debug and release agree; feature sets re-run in thorough tier)",
   "every configuration satisfies the same deterministic contract", "capacities pinned only from below where left to Vec")
 p("C17", "Kani harnesses driving each unsafe-containing consumer with unconstrained (lying) trait implementors: only memory-safety-class checks must pass",
